@@ -82,7 +82,11 @@ AUDIT_EXTRA = {
     'C10': [('C01Compile', 'Garnish.Props.C01', r'^(C10_|C01_compile_correct$)')],
     'C17': [('C01Compile', 'Garnish.Props.C01', r'^(C17_|C01_compile_correct$|compile_env$)')],
     'C11': [('C11Refine', 'Garnish.Props.C11Refine', None)],
-    'C18': [('C18Lex', 'Garnish.Props.C18Lex', None), ('C18Parse', 'Garnish.Props.C18Parse', None)],
+    'C18': [('C18Lex', 'Garnish.Props.C18Lex', None), ('C18Parse', 'Garnish.Props.C18Parse', None), ('C02Parse', 'Garnish.Props.C02Parse', r'^C18_')],
+    'C02': [('C02Parse', 'Garnish.Props.C02Parse', r'^C02_')],
+    'C04': [('C02Parse', 'Garnish.Props.C02Parse', r'^C04_')],
+    'C08': [('C08Casts', 'Garnish.Props.C08Casts', r'^cast_')],
+    'C07': [('C08Casts', 'Garnish.Props.C08Casts', r'^C07_')],
 }
 
 
@@ -409,6 +413,11 @@ def standard_proof_obligations(ctx, lean_targets=None):
             extra = set(t['axioms']) - ALLOWED_AXIOMS
             ctx.oblige(t['name'], 'theorem', not extra, f'axioms={t["axioms"]}' if extra else '')
             ctx.sample({'theorem': t['name'], 'axioms': t['axioms'], 'statement': t['statement'][:600]}, cap=60)
+    if ok and ctx.tier == 'thorough':
+        # independent re-check of the compiled property modules by leanchecker (replays every declaration in the kernel)
+        for m in audit_modules(prop):
+            rc, out = sh(['lake', 'env', 'leanchecker', m], cwd=LEAN, timeout=3600)
+            ctx.oblige(f'leanchecker {m}', 'audit', rc == 0, out[-1500:] if rc != 0 else '')
     bad = grep_audit()
     ctx.oblige('grep-audit(sorry|admit|axiom|native_decide|bv_decide|implemented_by|unsafe)', 'audit', not bad, '\n'.join(bad[:10]))
     hok, hout = build_harness()
